@@ -102,6 +102,12 @@ def run(R, env):
                 if not want:
                     cnt = fold(d[("unstake_requests_count",)])
                     okc = cnt[0] == "agg" and cnt[2] == "Some" and cnt[3][0][2][0] == "bin" and cnt[3][0][2][1] == "Add" and const_int(cnt[3][0][2][3]) == 1
+                    if not okc and cnt[0] == "agg" and cnt[2] == "Some":
+                        # `count.map_or(1, |c| c + 1)`: the same increment with None read as 0
+                        mv = cnt[3][0][2]
+                        if mv[0] == "call" and mv[1] == "std::option::Option::map_or" and len(mv[2]) == 3 and const_int(mv[2][1]) == 1:
+                            r_ = fold(closure_result(prog, mv[2][2], params={2: ("c",)}) or ("none",))
+                            okc = r_[0] == "bin" and r_[1] == "Add" and ((r_[2] == ("c",) and const_int(r_[3]) == 1) or (r_[3] == ("c",) and const_int(r_[2]) == 1))
                     if not okc:
                         good = False
             R.ob("C05.R2", "LiquidUnstake:request=%s:batch-delta" % name, good, "in this world the pending batch is not updated by exactly {batch_total_liquid_stake += paid%s}" % ("" if want else ", unstake_requests_count += 1"), loc=op["loc"], fn=hk)
